@@ -18,7 +18,7 @@ BOUNDS = {
     "semver_order": "570 versions (5 cores x pre-release lists up to length 3 over 10 identifiers, 3 build variants), all ordered pairs",
     "pep440_order": "~1176 versions (2 epochs x 7 releases x 6 pre x post/dev {absent, implicit, 0, 2} x 6 locals, thinned), all ordered pairs",
     "sanitize": "all strings up to length 5 over {a,B,0,1,'.','-','_','é',' '} x separator {.,-,_} x lowercase x keep_zeros x max_length {None,1,3,6}; integer sanitiser on the same strings; plus 12 long/unusual inputs (numbers wider than u64/u128, fullwidth digits)",
-    "branch_rules": "7 patterns x 36 branch names incl. non-ASCII (multi-byte characters straddling every prefix length), signed, overflowing and zero-padded segments; first-match lookup, resolve_for_branch and flag-over-rule precedence on 5 rule sets x 9 branches x 3 flag sets",
+    "branch_rules": "7 patterns x 36 branch names incl. non-ASCII (multi-byte characters straddling every prefix length), signed, overflowing and zero-padded segments; first-match lookup, resolve_for_branch and flag-over-rule precedence on 5 rule sets x 9 branches x 6 flag sets (every subset of label / number / mode flags that matters)",
     "bump_levels": "default precedence order; 3x3x3x2x2x2 variable assignments x 7 levels x override {None,0,7} x bump {None,0,2}; u64::MAX overflow probe; reset_lower_precedence_components under 4 precedence orders (default, reversed, shuffled, partial) x 8 levels",
     "presets_tier": "6 smart presets x dirty {None,false,true} x distance {None,0,3} x pre x post x epoch",
     "timestamp": "16 documented patterns x 7 instants (1970..2199) against chrono called directly",
@@ -27,8 +27,12 @@ BOUNDS = {
     "pep440_display": "5 SemVer and 5 PEP 440 sample versions",
     "resolve_barrier": "15 texts (incl. non-ASCII, fullwidth, whitespace) x 19 variables x 2 presets",
     "sanitize_uint_claim": "see sanitize",
-    "semver_from_zerv": "119 valid schemas (8 core x 5 extra-core x 3 build lists mixing var / str / uint components, incl. values that split into several identifiers, sanitise to nothing, or overflow u32) x 324 variable assignments; SemVer::from(Zerv).to_string() against an oracle written from the statement",
+    "semver_from_zerv": "valid schemas from 11 core (incl. literals that only sanitise to digits, signed or padded numbers, custom variables) x 5 extra-core x 3 build lists mixing var / str / uint components, incl. values that split into several identifiers, sanitise to nothing, or overflow u32) x 324 variable assignments; SemVer::from(Zerv).to_string() against an oracle written from the statement",
     "pep440_from_zerv": "the same 119 schemas x 324 assignments; PEP440::from(Zerv).to_string() against an oracle written from the statement",
+    "semver_roundtrip": "4 cores x 308 pre-release lists (<=2 identifiers from 17, incl. leading-zero alphanumerics, hyphens, numerics around u64::MAX) x 12 build lists x {'', 'v'}: parse, print, compare with the input; 3 cores above u64::MAX; 22 strings outside the grammar must be rejected",
+    "pep440_roundtrip": "6 epochs x 6 releases x ~110 pre-release spellings x 9 post x 5 dev x 8 local spellings x {'', v, V}, thinned to ~155k strings, each with its normal form computed from the fields (not by parsing): accepted, prints the normal form, normal form re-parses to itself and compares equal; 20 strings outside the grammar must be rejected",
+    "tag_max_semver": "all pairs and a third of the triples over 20 tag names (spellings, pre-releases, build metadata, a non-version): filter_only_valid_tags keeps exactly the parsable ones; find_max_version_tag returns a valid tag that no other valid tag exceeds under the reference precedence",
+    "tag_max_pep440": "all pairs and a third of the triples over 21 tag names (spellings, epochs, pre/post/dev, locals, a non-version): as tag_max_semver with the PEP 440 reference key",
     "template_functions": "prefix / hash / hash_int / prefix_if / sanitize on 10 values (incl. multi-byte) x lengths {0,1,2,3,7,30}; format_timestamp on 4 instants x 10 formats incl. invalid ones — rendered through the real Tera engine",
 }
 
@@ -79,7 +83,13 @@ def run(family, timeout=600):
     if p.returncode == 0 and not lines:
         res.update(status="no-cex", lines=[])
     elif lines:
-        res.update(status="cex", lines=lines[:5])
+        # a line may carry `class=<name>`: the obligation it is reported under (families that are not tied to a Verus unit)
+        classes = {}
+        for l in lines:
+            parts = l.split(" ", 3)
+            cls = parts[2][6:] if len(parts) > 2 and parts[2].startswith("class=") else "bounded-agreement"
+            classes.setdefault(cls, []).append(l)
+        res.update(status="cex", lines=lines[:5], classes={k: v[:5] for k, v in classes.items()})
     else:
         res.update(status="error", lines=[(p.stdout + p.stderr)[-800:]])
     return res
